@@ -1,0 +1,37 @@
+//go:build verif
+
+package snowflake
+
+// Contracts for govc, property C07: the 24-character date form of an id (CnStyle / FromChStyle).
+// Comments only; compiled only with the build tag `verif`. Separate file because these two functions are
+// verified with mathematical `int` (the decimal fields) next to 64-bit ids.
+
+//@ arith mixed
+//@ index elt
+//@ property C07
+//@ opaquediv 1000000
+//
+// the instant denoted by calendar fields in a location (time.Date), as a function of its arguments
+//@ opaque dateval(y int, mo int, d int, h int, mi int, s int, ns int, loc *time.Location) int64
+//@ func extern time.Date(year, month, day, hour, min, sec, nsec, loc)
+//@   ensures spec_unixnano(result) == dateval(year, int(month), day, hour, min, sec, nsec, loc)
+//@   modifies
+// the nanosecond reading of a time value is a function of the value (and it is the reading the clock-based
+// contracts of C06 call lastUnixNano)
+//@ func extern time.Time.UnixNano(t)
+//@   ensures result == lastUnixNano && result == spec_unixnano(t)
+//@   modifies lastUnixNano
+//
+// the fields of the date form: 4+2+2+2+2+2+3 digits of time, then 7 digits of node and step
+//@ pure two(v string, k int) string = v[4+2*k : 6+2*k]
+//@ pure cnwf(v string) bool = len(v) == 24 && isint(v[0:4]) && isint(two(v, 0)) && isint(two(v, 1)) && isint(two(v, 2)) && isint(two(v, 3)) && isint(two(v, 4)) && isint(v[14:17]) && isint(v[17:len(v)])
+//@ pure cnms(v string) int64 = dateval(ival(v[0:4]), ival(two(v, 0)), ival(two(v, 1)), ival(two(v, 2)), ival(two(v, 3)), ival(two(v, 4)), ival(v[14:17]) * 1000000, timeLoc) / 1000000 - _epoch
+//
+//@ func FromChStyle
+//@   ensures #rejects result1 != nil ==> !cnwf(v) && result0 == 0
+//@   ensures #accepts cnwf(v) ==> result1 == nil
+//@   ensures #value result1 == nil ==> result0 == (cnms(v) << tS()) | int64(ival(v[17:len(v)]))
+//@   modifies lastUnixNano
+//@   loop 1
+//@     invariant 0 <= i && i <= 5 && len(v) == 24 && isint(v[0:4]) && year == ival(v[0:4])
+//@     invariant #parsed forall k int :: { two(v, k) } 0 <= k && k < i ==> isint(two(v, k)) && es[k] == ival(two(v, k))
